@@ -1,4 +1,5 @@
 import CaresModel.Dns.Write
+import CaresModel.Dns.Parse
 import Driver.Loop
 /-! Model driver for the `h_write` line protocol (see the header comment of `harness/h_write.c`). -/
 open Cares.Dns Cares.Dns.NameW Cares.Dns.Build Cares.Dns.Write Driver
@@ -19,7 +20,7 @@ def unhexList : List Char → BStr
 def unhex (s : String) : BStr := if s = "-" then [] else unhexList s.toList
 
 /-- what C sees when the bytes are used as a NUL-terminated string -/
-def cstr (b : BStr) : BStr := b.takeWhile (· ≠ 0)
+def cstrW (b : BStr) : BStr := b.takeWhile (· ≠ 0)
 
 /-- `strtoul(s, NULL, 10)` on the digit prefix -/
 def num (s : String) : Nat := (s.toList.takeWhile Char.isDigit).foldl (fun a c => a * 10 + (c.toNat - 48)) 0
@@ -35,8 +36,8 @@ def parseArg (key : Nat) (v : String) : SetArg :=
   | some .u32 => .u32 (num v % 4294967296)
   | some .inaddr => .addr (padTo 4 (unhex v))
   | some .inaddr6 => .addr6 (padTo 16 (unhex v))
-  | some .name => if v.startsWith "~" then .str none else .str (some (cstr (unhex v)))
-  | some .str => if v.startsWith "~" then .str none else .str (some (cstr (unhex v)))
+  | some .name => if v.startsWith "~" then .str none else .str (some (cstrW (unhex v)))
+  | some .str => if v.startsWith "~" then .str none else .str (some (cstrW (unhex v)))
   | some .bin => .bin (unhex v)
   | some .binp => .bin (unhex v)
   | some .abinp => .abinAdd ((v.splitOn ",").map unhex)
@@ -76,22 +77,26 @@ def step (s : WriteState) (toks : List String) : WriteState × String :=
     | .error _ => (s, "err")
   | ["mkquery", name, cls, ty, id, rd, udp] =>
     let legacy := udp.startsWith "-"
-    match legacyCreateQuery (cstr (unhex name)) (num cls) (num ty) (num id % 65536) (num rd != 0)
+    match legacyCreateQuery (cstrW (unhex name)) (num cls) (num ty) (num id % 65536) (num rd != 0)
         (if legacy then 0 else num udp) with
     | .ok b => (s, "st=ok " ++ hexMsg b)
     | .error e => (s, stLine e)
-  | "parse" :: _ => (s, "unsupported")
+  | ["parse", h, flags, hexs] =>
+    match Cares.Dns.parse (unhex hexs).toArray (num flags) with
+    | .ok r => ({ s with recs := update (num h) (r, 0) s.recs }, "st=ok " ++ r.dump)
+    | .err e => (s, "st=" ++ e.cls)
+    | .fault _ => (s, "st=FAULT")
   | op :: h :: rest =>
     match lookup (num h) s.recs with
     | none => (s, "bad-handle")
     | some (r, dec) =>
       match op, rest with
       | "q", [name, qt, qc] =>
-        match queryAdd r (cstr (unhex name)) (num qt) (num qc) with
+        match queryAdd r (cstrW (unhex name)) (num qt) (num qc) with
         | .ok r' => ({ s with recs := update (num h) (r', dec) s.recs }, "ok")
         | .error _ => (s, "err")
       | "rr", sect :: name :: ty :: cl :: ttl :: sets =>
-        match rrLine (num sect) (cstr (unhex name)) (num ty) (num cl) (num ttl % 4294967296) sets with
+        match rrLine (num sect) (cstrW (unhex name)) (num ty) (num cl) (num ttl % 4294967296) sets with
         | .error _ => (s, "err")
         | .ok (rr, out) => ({ s with recs := update (num h) (addToSect r (num sect) rr, dec) s.recs }, out)
       | "ttldec", [n] => ({ s with recs := update (num h) (r, num n % 4294967296) s.recs }, "ok")
@@ -106,7 +111,14 @@ def step (s : WriteState) (toks : List String) : WriteState × String :=
         match writeTcpFrame queued r dec with
         | .ok b => (s, "st=ok " ++ hexMsg b)
         | .error e => (s, stLine e)
-      | "reparse", [_] => (s, "unsupported")
+      | "reparse", [h2] =>
+        match write r dec with
+        | .error e => (s, stLine e)
+        | .ok b =>
+          match Cares.Dns.parse b.toArray 0 with
+          | .ok r2 => ({ s with recs := update (num h2) (r2, 0) s.recs }, "st=w-ok p-ok " ++ r2.dump)
+          | .err e => (s, "st=w-ok p-" ++ e.cls)
+          | .fault _ => (s, "st=w-ok p-FAULT")
       | _, _ => (s, "bad-op")
   | _ => (s, "bad-op")
 
